@@ -99,14 +99,27 @@ func (l dirItemList) size(joliet bool) sizeBytes {
 			entries = item.dirEntryJoliet
 		}
 
-		for _, entry := range entries {
-			ret += entry.size()
-		}
-
-		ret = ret.sectors().bytes() // directory entries of one directory aligned to sector
+		ret += dirEntriesSize(entries) // directory entries of one directory aligned to sector
 	}
 
 	return ret
+}
+
+// dirEntriesSize returns size of directory extent holding given entries.
+// Entry can't cross sector boundary (ECMA-119 6.8.1.1): if it doesn't fit to the rest of current sector
+// it's placed to the beginning of next one. Size of whole extent is integer number of sectors.
+func dirEntriesSize(entries []directoryEntry) sizeBytes {
+	var ret sizeBytes
+
+	for _, entry := range entries {
+		if sectorSize-ret%sectorSize < entry.size() {
+			ret = ret.sectors().bytes()
+		}
+
+		ret += entry.size()
+	}
+
+	return ret.sectors().bytes()
 }
 
 type fileItem struct {
